@@ -33,6 +33,7 @@ def finding_fixed(fid):
 
 
 N1 = finding_fixed("C10-N1") or os.environ.get("C10_N1_FIXED", "") == "1"     # fixes/FC10a applied
+N4 = finding_fixed("C10-N4") or os.environ.get("C10_N4_FIXED", "") == "1"     # fixes/FC10b applied
 
 ENUM_CAP = 2048      # largest box that is enumerated (all_values, box sweeps)
 STEPSET = [1, 2, 3, 4, 5, 8, 16, 32, 64]
@@ -167,7 +168,7 @@ def parse_attr(text):
 
 # ------------------------------------------------------------------------------------------------
 # tiny interpreter for the arith ops of get_bound_ops / get_step_ops / convert-memref-to-arith
-def interp(ops, env, dim_of=None, ptr_of=None):
+def interp(ops, env, dim_of=None, ptr_of=None, meta_of=None):
     from xdsl.dialects import arith, memref
     for op in ops:
         if isinstance(op, arith.ConstantOp):
@@ -180,6 +181,9 @@ def interp(ops, env, dim_of=None, ptr_of=None):
             env[op.result] = env[op.lhs] * env[op.rhs]
         elif isinstance(op, arith.AddiOp):
             env[op.result] = env[op.lhs] + env[op.rhs]
+        elif isinstance(op, memref.ExtractStridedMetaDataOp) and meta_of is not None:
+            for res, v in zip(op.strides, meta_of):
+                env[res] = v
         elif isinstance(op, memref.ExtractAlignedPointerAsIndexOp) and ptr_of is not None:
             env[op.results[0]] = ptr_of(op.source)
         elif op.name in ("test.op", "memref.subview", "builtin.module"):
@@ -227,6 +231,45 @@ def resolve_real(L, shape, el, form="memref"):
             raise
         except BaseException as e:  # noqa: BLE001
             out[key] = {"raised": type(e).__name__}
+    return out
+
+
+def resolve_strided_real(case):
+    """get_bound_ops / get_step_ops on a memref whose layout is a StridedLayoutAttr (the metadata branch of
+    get_step_ops), with the TSL built as snax-copy-to-dma builds it (from_strides of the type's strides and the tile
+    bounds of the copy partner) or given directly; the emitted ops are evaluated at runtime shape / strides."""
+    from snaxc.dialects.tsl import TiledStridedLayoutAttr
+    from snaxc.ir.tsl import TiledStridedLayout
+    from xdsl.dialects.builtin import IntegerType, MemRefType, NoneAttr, StridedLayoutAttr
+    from xdsl.dialects.test import TestOp
+    if case.get("layout") is None:
+        tsl = TiledStridedLayout.from_strides(case["strides"], case["tile_bounds"], case["offset"])
+    else:
+        tsl = to_tsl(case["layout"])
+    L = of_tsl(tsl)
+    attr = TiledStridedLayoutAttr(tsl)
+    rank = len(case["shape"])
+    mt = MemRefType(IntegerType(8 * case["el_size"]), [-1] * rank, StridedLayoutAttr(case["type_strides"], 0), NoneAttr())
+    src = TestOp(result_types=[mt])
+    out = {"layout": L}
+    try:
+        ops, bmap = attr.get_bound_ops(src.results[0])
+        env = interp(ops, {}, dim_of=lambda i: case["shape"][i])
+        out["bounds"] = [[env[bmap[(d, k)].results[0]] for k in range(len(t))] for d, t in enumerate(L["ts"])]
+    except (ImportError, SyntaxError, MemoryError):
+        raise
+    except BaseException as e:  # noqa: BLE001
+        out["bounds"] = {"raised": type(e).__name__}
+        out["steps"] = None
+        return out
+    try:
+        ops2, smap = attr.get_step_ops(bmap, src.results[0], in_bytes=case["in_bytes"])
+        env2 = interp(ops2, dict(env), meta_of=case["meta"])
+        out["steps"] = [[env2[smap[(d, k)].results[0]] for k in range(len(t))] for d, t in enumerate(L["ts"])]
+    except (ImportError, SyntaxError, MemoryError):
+        raise
+    except BaseException as e:  # noqa: BLE001
+        out["steps"] = {"raised": type(e).__name__}
     return out
 
 
@@ -396,6 +439,8 @@ class C10(Prop):
         "that reads strides from extract_strided_metadata is not modelled)",
         "largest_common_contiguous_block is covered by C05, not here",
         "expects fixes F06 (offset: ?) and F13 (static subview offsets) applied to $SNAX_REPO",
+        "memrefs with a StridedLayoutAttr (the extract_strided_metadata branch of get_step_ops) are modelled by "
+        "stepsAtStrided on the tree with FC10a; the variant with fixes/FC10b follows the status of finding C10-N4",
         "dynamic steps are judged against the contiguity convention (largest static step x its extent, then right to "
         "left); a layout without any static step has no convention (finding C10-N1)",
     ]
@@ -474,6 +519,40 @@ class C10(Prop):
                 shp.append(inner * rng.randint(1, 4))
             yield {"kind": "resolve", "layout": {"ts": ts, "offset": rng.choice([0, 0, 16, None])}, "shape": shp,
                    "el": rng.choice([1, 2, 4, 8]), "form": rng.choice(["memref", "shapes"])}
+        for i in range(90 if quick else 2000):   # memrefs with a StridedLayoutAttr: the metadata branch of get_step_ops
+            rank = rng.randint(1, 3)
+            el_size = rng.choice([1, 2, 4, 8])
+            in_bytes = rng.random() < 0.75
+            if i % 4 != 3:
+                # as snax-copy-to-dma: from_strides(strides of the type, tile bounds of the TSL partner)
+                strides = [rng.choice([None, None, 1, 2, 4, 20, 40]) for _ in range(rank)]
+                tb = [[rng.choice([None, None, 2, 3])] + [rng.choice([1, 2, 3, 4, 8]) for _ in range(rng.randint(0, 2))]
+                      for _ in range(rank)]
+                if rng.random() < 0.05:
+                    rng.choice(tb)[-1] = rng.choice([0, None])       # malformed inner bound
+                shp = []
+                for t in tb:
+                    inner = 1
+                    for b in t[1:]:
+                        inner *= b or 1
+                    shp.append(inner * (t[0] or rng.randint(1, 4)))
+                meta = [st if st is not None else rng.choice([1, 3, 16, 40, 100]) for st in strides]
+                yield {"kind": "resolve_strided", "layout": None, "strides": strides, "tile_bounds": tb,
+                       "offset": rng.choice([0, 0, 5, None]), "type_strides": strides, "shape": shp, "meta": meta,
+                       "el_size": el_size, "in_bytes": in_bytes}
+            else:
+                # any TSL on a strided memref (the branch only looks at the last tile of every dimension)
+                L = gen_layout(rng, max_rank=3, dyn=0.9, zero=0.02, cap=10 ** 6)
+                shp = []
+                for t in L["ts"]:
+                    inner = 1
+                    for _, b in t[1:]:
+                        inner *= b or 1
+                    shp.append(inner * (t[0][1] or rng.randint(1, 4)))
+                ts_ = [rng.choice([None, 1, 8]) for _ in L["ts"]]
+                yield {"kind": "resolve_strided", "layout": L, "type_strides": ts_, "shape": shp,
+                       "meta": [st if st is not None else rng.choice([1, 3, 16, 40]) for st in ts_],
+                       "el_size": el_size, "in_bytes": in_bytes}
         for _ in range(120 if quick else 2500):
             L = gen_layout(rng, dyn=0.3, zero=0.05, cap=10 ** 9, bounds=(1, 2, 3, 4, 8, 16), min_rank=0)
             text = str(to_tsl(L))
@@ -567,6 +646,8 @@ class C10(Prop):
             out["canon_bounds"] = canon["bounds"]
             out["canon_steps_el"] = canon["steps_el"]
             return out
+        if k == "resolve_strided":
+            return resolve_strided_real(case)
         if k == "parse":
             return exc(lambda: of_tsl(parse_attr(case["text"])))
         if k == "subview":
@@ -584,6 +665,13 @@ class C10(Prop):
         if k == "resolve":
             return [{"fn": "c10.resolve", "args": {"layout": case["layout"], "shape": case["shape"], "el": e, "n1": N1,
                                                    "canon": c}} for e, c in ((case["el"], False), (1, False), (1, True))]
+        if k == "resolve_strided":
+            return [{"fn": "c10.resolve_strided", "args": {
+                "layout": case.get("layout"), "strides": case.get("strides", []), "tile_bounds": case.get("tile_bounds", []),
+                "offset": case.get("offset", 0), "shape": case["shape"], "meta": case["meta"],
+                # with fix FC10b the metadata strides are scaled by the requested unit, not by the element size
+                "el_size": (case["el_size"] if case["in_bytes"] else 1) if N4 else case["el_size"],
+                "el": case["el_size"] if case["in_bytes"] else 1}}]
         if k == "parse":
             return [{"fn": "c10.parse", "args": {"tokens": lex(case["text"] + ">"), "f6": F6}}]
         if k == "subview":
@@ -801,6 +889,48 @@ class C10(Prop):
                         fail(f"the resolved bounds {bs} and steps {steps} ({unit}) of {txt} map two indices of the "
                              f"runtime box to the same address")
                         break
+        elif k == "resolve_strided":
+            if "raised" in impl_out:
+                fail(f"bound/step ops on a strided memref raised {impl_out['raised']}: {impl_out.get('msg')}")
+                return bad
+            if case.get("layout") is not None:
+                return bad      # arbitrary TSL on a strided memref: correspondence only
+            st, tb = case["strides"], case["tile_bounds"]
+            ok = all(x is None or x > 0 for x in st) and all(
+                t and (t[0] is None or t[0] > 0) and all(b is not None and b > 0 for b in t[1:]) for t in tb)
+            if not ok:
+                return bad
+            bs, ss = impl_out["bounds"], impl_out["steps"]
+            if isinstance(bs, dict) or isinstance(ss, dict) or ss is None:
+                fail(f"bound/step ops raised on from_strides({st}, {tb}) of a strided memref: {bs} {ss}")
+                return bad
+            el = case["el_size"]
+            unit = el if case["in_bytes"] else 1
+            txt = (f"from_strides({st}, {tb}) on memref<…x i{8 * el}, strided<{case['type_strides']}>> at shape "
+                   f"{case['shape']}, run-time strides {case['meta']}, in_bytes={case['in_bytes']}")
+            # a layout built from plain strides means the plain strides: element i of dimension d lies at
+            # (run-time stride of d) * i, so tile k of dimension d steps by stride_d * (product of the inner bounds)
+            for d, t in enumerate(tb):
+                inner = 1
+                for b in t[1:]:
+                    inner *= b
+                want_b = [t[0] if t[0] is not None else case["shape"][d] // inner] + t[1:]
+                if bs[d] != want_b:
+                    fail(f"bounds of dim {d} are {bs[d]}, expected {want_b}: {txt}")
+                    return bad
+                for kk in range(len(t)):
+                    below = 1
+                    for b in t[kk + 1:]:
+                        below *= b
+                    want = case["meta"][d] * below * unit
+                    if ss[d][kk] != want:
+                        what = (f"step ({d},{kk}) is {ss[d][kk]}, the plain stride {case['meta'][d]} x inner bounds {below} x "
+                                f"unit {unit} is {want}: {txt}")
+                        # finding C10-N4: the metadata strides are multiplied by the element size even when the
+                        # steps are requested in elements
+                        n4 = (not case["in_bytes"]) and st[d] is None and ss[d][kk] == want * el
+                        fail(what, "C10-N4" if n4 else None)
+                        return bad
         elif k == "parse":
             if "raised" in impl_out:
                 return bad
@@ -908,6 +1038,20 @@ class C10(Prop):
                 t = case["text"]
                 for i in range(len(t)):
                     yield dict(case, text=t[:i] + t[i + 1:])
+            return
+        if case["kind"] == "resolve_strided" and case.get("layout") is None:
+            n = len(case["strides"])
+            for d in range(n):
+                if n > 1:
+                    yield dict(case, **{kk: case[kk][:d] + case[kk][d + 1:]
+                                        for kk in ("strides", "tile_bounds", "type_strides", "shape", "meta")})
+                tb = case["tile_bounds"][d]
+                if len(tb) > 2:
+                    inner = tb[-1] or 1
+                    yield dict(case, tile_bounds=case["tile_bounds"][:d] + [tb[:-1]] + case["tile_bounds"][d + 1:],
+                               shape=case["shape"][:d] + [max(1, case["shape"][d] // inner)] + case["shape"][d + 1:])
+            if case["offset"] != 0:
+                yield dict(case, offset=0)
             return
         if case["kind"] == "resolve":
             ts = L["ts"]
